@@ -525,10 +525,20 @@ Definition c03_history (c : wcase) : bool :=
 (* C04 over one honest browser: once a login (or refresh) stored token t, every
    gated request made while t is more than the grace period from expiry is
    forwarded with no provider call, whichever instance serves it *)
-Definition stored_by (E : env) (cfg : config) (s : wstep) : option istr :=
-  if establishes E cfg (w_now s) (w_rq s) (w_obs s)
-  then match emitted_id E (w_obs s) with Some (TTok t) => Some t | _ => None end
+(* what a step WROTE, read off the provider's answer (not off the cookies, whose
+   reading is the thing under test): a callback or refresh that obtained ID token
+   id (and refresh token rt) and saved an authenticated session *)
+Definition written_by (s : wstep) : option (istr * tval) :=
+  if emits_auth (w_obs s) then
+    match w_ans s, r_calls (w_obs s) with
+    | Some (AOk id rt), [PExchange _ _ _ _] => Some (id, if N.eqb rt 0 then TEmpty else TTok rt)
+    | Some (AOk id rt), [PRefresh old] => Some (id, if N.eqb rt 0 then old else TTok rt)
+    | _, _ => None
+    end
   else None.
+
+Definition stored_by (E : env) (cfg : config) (s : wstep) : option istr :=
+  match written_by s with Some (id, _) => Some id | None => None end.
 
 Definition comfortably_valid (E : env) (cfg : config) (now : time) (t : istr) : bool :=
   let ti := tok E t in
@@ -583,6 +593,8 @@ Definition c11_history (c : wcase) : bool :=
 
 (* C07 as seen end to end: what the next request reads back (the token handed
    downstream, the refresh token sent to the provider) is what was last stored *)
+Definition is_TEmpty (t : tval) : bool := match t with TEmpty => true | _ => false end.
+
 Fixpoint c07_browser (E : env) (cfg : config) (id rt : option tval) (l : list wstep) : bool :=
   match l with
   | [] => true
@@ -593,8 +605,15 @@ Fixpoint c07_browser (E : env) (cfg : config) (id rt : option tval) (l : list ws
       let here :=
         (match id with Some t => tval_eqb (get_access (nchunks E) sd) t | None => true end)
         && (match rt with Some t => tval_eqb (get_refresh (nchunks E) sd) t | None => true end) in
-      let id' := match emitted_id E o with Some t => Some t | None => id end in
-      let rt' := match emitted_rt E o with Some t => Some t | None => rt end in
+      let '(id', rt') :=
+        match written_by s with
+        | Some (i, t) => (Some (if N.eqb i 0 then TEmpty else TTok i), Some t)
+        | None =>
+            (* a response that rewrites the token cookies without a provider answer clears them
+               (logout, restart of the login, removal of an invalid refresh token) *)
+            ((match emitted_id E o with Some t => if is_TEmpty t then Some TEmpty else id | None => id end),
+             (match emitted_rt E o with Some t => if is_TEmpty t then Some TEmpty else rt | None => rt end))
+        end in
       here && c07_browser E cfg id' rt' r
   end.
 
